@@ -31,7 +31,8 @@ type ChainCfg struct {
 	ContEncReg   bool   `json:"container_encoding_while_registering"` // the switch is flipped to container_encoding before serving
 	RouteEnc     int    `json:"route_encoding"`                       // 0 unset, 1 true, 2 false
 	ReuseBuilder bool   `json:"one_route_builder_for_both_routes"`
-	RouteEncPost int    `json:"post_route_encoding,omitempty"` // with ReuseBuilder: set on the builder after the GET route was built (0: left as it was)
+	RouteEncPost int    `json:"post_route_encoding,omitempty"`                            // with ReuseBuilder: set on the builder after the GET route was built (0: left as it was)
+	RouteEncLate int    `json:"get_route_encoding_set_on_the_registered_route,omitempty"` // Route.EnableContentEncoding on the stored GET route after registration (0: not called)
 	Provider     string `json:"provider"`
 	WCap         int    `json:"wcap,omitempty"`
 	RCap         int    `json:"rcap,omitempty"`
@@ -465,6 +466,15 @@ func (e *chainEnv) build(encOff bool) (c *restful.Container, outer *restful.Cont
 		ws.Route(mk(ws.POST("/post").Consumes("application/json")))
 	}
 	c.Add(ws)
+	if cfg.RouteEncLate != 0 && !encOff {
+		// the other documented way to set the override: on the registered route itself
+		rs := ws.Routes()
+		for i := range rs {
+			if rs[i].Method == "GET" {
+				rs[i].EnableContentEncoding(cfg.RouteEncLate == 1)
+			}
+		}
+	}
 	// a second service with its own filters: chains of different requests must not mix
 	ws2 := new(restful.WebService).Path("/svc2").Produces("application/json")
 	for _, f := range cfg.SF2[:nsf2] {
@@ -734,6 +744,9 @@ func genChainCfg(tp *sim.Tape, k chainKnobs) *ChainCfg {
 		if k.encoding {
 			cfg.RouteEncPost = tp.G(3)
 		}
+	}
+	if k.encoding && tp.Chance(150) {
+		cfg.RouteEncLate = 1 + tp.G(2)
 	}
 	cfg.Pretty = true
 	ncf := k.maxFilters
